@@ -73,6 +73,7 @@ type script struct {
 	gSer   uint16 // terminal serial of the good session
 	gPlat  uint16 // platform serial the next answer must carry
 	gFirst []byte // header source (first message) of the attachment good session: bcd
+	expV   string         // the file the good upload must have left on disk (v=1)
 	expK   map[int]string // what must happen to a hostile connection (prefix of its status), where the property says so
 }
 
@@ -97,6 +98,11 @@ func (s *script) Dwhole(k int, b []byte) { s.toks = append(s.toks, fmt.Sprintf("
 func (s *script) O(k int)      { s.toks = append(s.toks, fmt.Sprintf("O%d", k)) }
 func (s *script) F(k int)      { s.toks = append(s.toks, fmt.Sprintf("F%d", k)) }
 func (s *script) R(k int)      { s.toks = append(s.toks, fmt.Sprintf("R%d", k)) }
+// probeRefused: the probe of a claimant of a key in use (its close is expected, not a transient)
+func (s *script) probeRefused(k int, v2019 bool, bcd []byte) {
+	s.toks = append(s.toks, fmt.Sprintf("Q%d:%s", k, Hx(Frame808(0x0002, v2019, bcd, uint16(0xE000+k), nil))))
+}
+
 func (s *script) probe(k int, v2019 bool, bcd []byte) {
 	ser := uint16(0xE000 + k)
 	if s.kind == "808" {
@@ -117,6 +123,21 @@ func (s *script) good808() {
 	s.expG = append(s.expG, Hx(Frame808(0x8001, s.g2019, s.gBcd, s.gPlat, general(s.gSer, 0x0002, 0))))
 	s.gPlat++
 }
+
+// stream808: n heartbeats of the well-behaved session sent from a goroutine while the next tokens run; joined later
+func (s *script) stream808(n int) {
+	var all []byte
+	var want []byte
+	for i := 0; i < n; i++ {
+		s.gSer++
+		all = append(all, Frame808(0x0002, s.g2019, s.gBcd, s.gSer, nil)...)
+		want = append(want, Frame808(0x8001, s.g2019, s.gBcd, s.gPlat, general(s.gSer, 0x0002, 0))...)
+		s.gPlat++
+	}
+	s.toks = append(s.toks, "C:"+Hx(all))
+	s.expG = append(s.expG, Hx(want))
+}
+func (s *script) join() { s.toks = append(s.toks, "J") }
 
 func (s *script) accept808() {
 	v := phoneCounter%2 == 1
@@ -207,6 +228,11 @@ func run(c *Ctx, s *script) {
 				Input: req, Observed: fmt.Sprintf("k%d=%s", k, Trunc(got, 300)), Required: fmt.Sprintf("k%d=%s (every claimant of a key held by a live session is ended, the session stays registered)", k, want)})
 			break
 		}
+	}
+	if s.expV != "" && field(ans, "v") != s.expV {
+		c.Violate(Violation{Signature: sig + "/good-file/" + s.class,
+			What:  "the file of the well-behaved upload is not on disk with its content after the hostile script",
+			Input: req, Observed: "v=" + field(ans, "v"), Required: "v=" + s.expV})
 	}
 	if got := field(ans, "a"); s.expA != "" && got != s.expA {
 		c.Violate(Violation{Signature: sig + "/accept/" + s.class,
@@ -430,12 +456,83 @@ func gen808(c *Ctx, pa string, budget time.Duration) {
 				} else {
 					s.D(k, Frame808(0x0002, v, s.gBcd, 50, nil))
 				}
-				s.probe(k, v, s.gBcd)
+				s.probeRefused(k, v, s.gBcd)
 				if s.expK == nil {
 					s.expK = map[int]string{}
 				}
 				s.expK[k] = "closed"
 			}
+			finish(s)
+		}
+	}
+	// (d0) the other direction: a hostile connection joins FIRST under a number; while it lives every other claimant
+	// of that number is ended (the registry's rule, C11), and once it is gone the number is free again
+	for _, v := range []bool{false, true} {
+		s := newScript("squatter")
+		bcd := nextPhone(v)
+		k1 := s.hostile()
+		s.O(k1)
+		s.D(k1, Frame808(0x0002, v, bcd, 1, nil))
+		k2 := s.hostile()
+		s.O(k2)
+		s.D(k2, Frame808(0x0100, v, bcd, 2, make([]byte, 37)))
+		s.probeRefused(k2, v, bcd)
+		s.probe(k1, v, bcd)
+		s.F(k1)
+		s.toks = append(s.toks, "W")
+		k3 := s.hostile()
+		s.O(k3)
+		s.D(k3, Frame808(0x0002, v, bcd, 3, nil))
+		s.probe(k3, v, bcd)
+		s.expK = map[int]string{k2: "closed", k3: "open"}
+		finish(s)
+	}
+	// (d0') unknown message ids in plain (unfragmented) frames
+	for _, id := range []uint16{0x7777, 0x0003, 0xffff, 0x0000, 0x8001} {
+		for _, v := range []bool{false, true} {
+			s := newScript("unknown-id")
+			k := s.hostile()
+			bcd := nextPhone(v)
+			s.O(k)
+			s.D(k, Frame808(id, v, bcd, 1, RandBody(rng, rng.Intn(30))))
+			s.D(k, Frame808(id, v, bcd, 2, nil))
+			s.probe(k, v, bcd)
+			s.expK = map[int]string{k: "open"}
+			finish(s)
+		}
+	}
+	// (d0'') the well-behaved session streams heartbeats from its own goroutine WHILE the hostile connection acts
+	for ci, hostile := range []string{"burst-rst", "sub-package", "garbage", "bad-frame"} {
+		for _, v := range []bool{false, true} {
+			s := newScript("concurrent-good")
+			s.stream808(40)
+			k := s.hostile()
+			bcd := nextPhone(v)
+			s.O(k)
+			switch hostile {
+			case "burst-rst":
+				var b []byte
+				for i := 0; i < 300; i++ {
+					b = append(b, Frame808(0x0200, v, bcd, uint16(i), make([]byte, 28))...)
+				}
+				s.Dwhole(k, b)
+				s.R(k)
+			case "sub-package":
+				for i, p := range [][2]uint16{{3, 0}, {3, 4}, {65535, 1}, {2, 1}, {5, 2}} {
+					s.D(k, FrameSpec{ID: 0x0801, Ver2019: v, Phone: bcd, Serial: uint16(i), Frag: true, Sum: p[0], No: p[1], Body: []byte{1}}.Wire())
+				}
+				s.probe(k, v, bcd)
+			case "garbage":
+				s.D(k, RandBody(rng, 500))
+				s.F(k)
+			default:
+				f := Frame808(0x0102, v, bcd, 1, make([]byte, 300))
+				f[len(f)-2] ^= 0x55
+				s.D(k, f)
+				s.probe(k, v, bcd)
+			}
+			_ = ci
+			s.join()
 			finish(s)
 		}
 	}
@@ -592,6 +689,8 @@ func genAtt(c *Ctx, budget time.Duration) {
 				return 0x9212, append(b, 0, 0, 0)
 			})
 		s.acceptAtt()
+		s.toks = append(s.toks, "V:"+Hx([]byte("./"+fmt.Sprintf("%x", s.gBcd)+"/"+string(gname)))+":"+Hx(gdata))
+		s.expV = "1"
 		run(c, s)
 	}
 	u32 := func(x uint32) []byte { return binary.BigEndian.AppendUint32(nil, x) }
@@ -650,6 +749,8 @@ func genAtt(c *Ctx, budget time.Duration) {
 		h("garbage", RandBody(rng, 200))
 		h("delimiters", bytes.Repeat([]byte{0x7e}, 50))
 		h("half-frame", f1210[:len(f1210)/2])
+		gother := Frame808(0x1210, v, bcd, 1, Body1210(d, pre, 0, -1, []AttItem{{Name: gname, Size: 4}}))
+		h("same-name-other-terminal", gother, Chunk(d, gname, 0, []byte{0xde, 0xad, 0xbe, 0xef}), Frame808(0x1212, v, bcd, 3, Body1211(gname, 0, 4)))
 		h("complete-upload", f1210, f1211, Chunk(d, name, 0, bytes.Repeat([]byte{5}, 10)), f1212)
 		h("complete-then-more", f1210, Chunk(d, name, 0, bytes.Repeat([]byte{5}, 10)), f1212, Chunk(d, name, 0, bytes.Repeat([]byte{6}, 10)), f1212, Chunk(d, name, 20, []byte{1}))
 		_ = u32
@@ -766,11 +867,18 @@ func c10(c *Ctx) {
 		gen808(c, "0", b808)
 		if os.Getenv("VERIF_C10_PARSEALL") != "0" {
 			gen808ParseAll(c, b808/4)
+			parseAllTransfers(c)
 		}
 	}
 	if os.Getenv("VERIF_C10_ONLY") != "808" {
 		genAtt(c, batt)
 	}
+	// scripts that were played again because an answer timed out or a reset was not explained by the bytes sent
+	// (never because of a crash): reported, not hidden
+	for kind, n := range C10Transients {
+		c.Dist[kind+"/transient-retry"] += n
+	}
+	c.Extra["transient_retries"] = C10Transients
 	if !c.Quick() && os.Getenv("VERIF_C10_ONLY") == "" {
 		memory808(c)
 		buffers(c)
@@ -847,6 +955,34 @@ func memory808(c *Ctx) {
 	}
 }
 
+// parseAllTransfers: under the parse-every-body handlers a COMPLETED two-packet transfer reaches the handler with the
+// merged body (the pm_complete path of the model); location, batch and multimedia bodies, both versions
+func parseAllTransfers(c *Ctx) {
+	loc := make([]byte, 28)
+	bodies := map[uint16][]byte{
+		0x0200: append(append([]byte{}, loc...), 0x01, 0x04, 0, 0, 0, 9, 0x31, 0x00),
+		0x0704: append([]byte{0, 2, 0, 0, 28}, loc...),
+		0x0801: make([]byte, 60),
+		0x0102: append([]byte{230}, make([]byte, 299)...),
+	}
+	for id, body := range bodies {
+		for _, v := range []bool{false, true} {
+			s := &script{kind: "808", param: "1", class: "parse-all-transfer"}
+			s.good808()
+			k := s.hostile()
+			bcd := nextPhone(v)
+			half := len(body) / 2
+			s.O(k)
+			s.D(k, FrameSpec{ID: id, Ver2019: v, Phone: bcd, Serial: 1, Frag: true, Sum: 2, No: 1, Body: body[:half]}.Wire())
+			s.D(k, FrameSpec{ID: id, Ver2019: v, Phone: bcd, Serial: 2, Frag: true, Sum: 2, No: 2, Body: body[half:]}.Wire())
+			s.probe(k, v, bcd)
+			s.good808()
+			s.accept808()
+			run(c, s)
+		}
+	}
+}
+
 // gen808ParseAll: the same witnesses against a server whose handlers Parse every body (README pattern)
 func gen808ParseAll(c *Ctx, budget time.Duration) {
 	rng := c.Rng
@@ -857,7 +993,7 @@ func gen808ParseAll(c *Ctx, budget time.Duration) {
 			if time.Since(start) > budget {
 				return
 			}
-			v := rng.Intn(2) == 0
+			v := (len(body)+int(id))%2 == 0
 			s := &script{kind: "808", param: "1", class: "parse-all"}
 			s.good808()
 			k := s.hostile()
